@@ -44,6 +44,15 @@ func (c *zzNodeClient) Update(ctx context.Context, obj client.Object, opts ...cl
 // instance limits can deliver, for every limit vector and configuration.
 // zz:noreplay the cluster eni-config, node capabilities and the unstructured converter are summarised through engine-side overrides
 func ZZ_C19_node_cr_flavor() {
+	erdmaCapacity, nRdma, perAdapter := zzNodeCRFlavor()
+	if erdmaCapacity >= 0 {
+		zz.Assert(erdmaCapacity <= nRdma*perAdapter, "the advertised RDMA capacity is at most RDMA interfaces times addresses per interface")
+	}
+}
+
+// zzNodeCRFlavor runs the daemon-side reconciler and checks the feature gates and the planned
+// interface slots; it returns what the RDMA capacity obligation (C19 only) needs
+func zzNodeCRFlavor() (erdmaCapacity, nRdmaOut, perAdapter int) {
 	cap := networkv1beta1.NodeCap{
 		Adapters:           zz.IntRange("cap.adapters", 1, 16), // every instance has its primary interface
 		IPv4PerAdapter:     zz.IntRange("cap.ipv4PerAdapter", 0, 64),
@@ -77,7 +86,7 @@ func ZZ_C19_node_cr_flavor() {
 		calls++
 		return map[string]interface{}{"version": calls}, nil // always "changed": the update is always issued
 	})
-	erdmaCapacity := -1
+	erdmaCapacity = -1
 	zz.Override("(*github.com/AliyunContainerService/terway/pkg/eni.nodeReconcile).runERDMADevicePlugin", func(r *nodeReconcile, count int) { erdmaCapacity = count })
 	cl := &zzNodeClient{node: node, k8sNode: &corev1.Node{ObjectMeta: metav1.ObjectMeta{Name: "n1"}}}
 	r := &nodeReconcile{client: cl}
@@ -106,10 +115,9 @@ func ZZ_C19_node_cr_flavor() {
 	zz.Assert(zz.Implies(cap.Adapters >= 1, total == cap.Adapters-1), "all attachable secondary interfaces are offered")
 	zz.Assert(nTrunk <= 1 && nRdma <= 1, "at most one trunk and one RDMA interface")
 	zz.Assert(zz.Implies(nTrunk == 1, spec.ENISpec.EnableTrunk) && zz.Implies(nRdma == 1, spec.ENISpec.EnableERDMA), "a trunk / RDMA slot is only planned when the feature is enabled")
-	if erdmaCapacity >= 0 {
-		zz.Assert(erdmaCapacity <= nRdma*cap.IPv4PerAdapter, "the advertised RDMA capacity is at most RDMA interfaces times addresses per interface")
-	}
+	nRdmaOut, perAdapter = nRdma, cap.IPv4PerAdapter
 	zz.Reach("published")
+	return
 }
 
 // C19 across an instance-type change: the Node CR as stored in the API server
